@@ -77,20 +77,43 @@ def run(cap):
                 bad += 1
     out.append(rec("mem.y_groups_follow_connections", cls, len(mesh.regions), bad, 0))
     # shared x-edge: the outer contour of the inner region is the inner contour of the outer one
-    wx = 0.0
-    nshare = 0
+    myg = int(mesh.user_options.y_boundary_guards)
+    wx = {"domain": 0.0, "guards": 0.0}
+    nshare = {"domain": 0, "guards": 0}
     for rid, region in mesh.regions.items():
         oid = region.connections["outer"]
         if oid is None:
             continue
         og = mesh.regions[oid]
-        a = np.hypot(region.Rxy.xlow[-1] - og.Rxy.xlow[0], region.Zxy.xlow[-1] - og.Zxy.xlow[0])
-        b = np.hypot(region.Rxy.corners[-1] - og.Rxy.corners[0], region.Zxy.corners[-1] - og.Zxy.corners[0])
-        wx = max(wx, amax(a), amax(b))
-        nshare += a.size + b.size
-    if nshare:
-        out.append(rec("mem.shared_x_edge_points_coincide", cls, nshare, wx, 1e-7, note="MeshRegion.atol=1e-7 is the code's own 'same point' tolerance"))
-
+        PA = np.array([[p.R, p.Z] for p in region.contours[-1]])
+        PB = np.array([[p.R, p.Z] for p in og.contours[0]])
+        d = np.hypot(PA[:, 0] - PB[:, 0], PA[:, 1] - PB[:, 1])
+        dom = np.ones(len(d), bool)
+        if region.connections["lower"] is None:
+            dom[: 2 * myg] = False
+        if region.connections["upper"] is None:
+            dom[len(d) - 2 * myg :] = False
+        for k, m in (("domain", dom), ("guards", ~dom)):
+            if m.any():
+                wx[k] = max(wx[k], amax(d[m]))
+                nshare[k] += int(m.sum())
+    for k in ("domain", "guards"):
+        if nshare[k]:
+            out.append(rec("mem.shared_x_edge_points_coincide." + k, cls, nshare[k], wx[k], 1e-7, note="MeshRegion.atol=1e-7 is the code's own 'same point' tolerance", sig=("radially adjacent regions place the points of their shared contour differently (%s rows)" % k) if wx[k] > 1e-7 else None))
+    # shared y-edge before the copy: a region's own last point vs the upper neighbour's first
+    wy = 0.0
+    ny_ = 0
+    for rid, region in mesh.regions.items():
+        uid = region.connections["upper"]
+        if uid is None:
+            continue
+        ur = mesh.regions[uid]
+        for ic in range(len(region.contours)):
+            a, b = region.contours[ic][2 * region.ny], ur.contours[ic][0]
+            wy = max(wy, float(np.hypot(a.R - b.R, a.Z - b.Z)))
+            ny_ += 1
+    if ny_:
+        out.append(rec("mem.shared_y_edge_points_coincide (own end point vs upper neighbour's first point)", cls, ny_, wy, 1e-7, sig="own end point and the upper neighbour's first point differ by up to %.1e m" % wy if wy > 1e-7 else None))
     # ---- (ii) BOUT++ reading of the integers vs the geometry in the file -------------
     t = Topo(nc)
     probs = t.ordering_problems()
